@@ -27,6 +27,8 @@ PROP = {'id': 'C20',
                  'fields, ordered by time within its name, idempotent'],
  'explanation': 'Per call update_resource_stats moves every reported cell to max(old,v) / min(old,v) / old+v and changes nothing else (nested-dict frame); '
                 'lemma L-C20 lifts this by induction to the true max/min/sum of all samples. _build_results counts each result in exactly one class and each '
-                "tally equals the number of results of that class. The level is 'other' because the first half of the property (events lossless, ordered, "
+                "tally equals the number of results of that class. JobRunner._aggregate_events (node folds the per-job event logs into its own log): "
+                "every line the node log already had is kept in place (a truncating open fails the loop-entry invariant), a job log is removed only after "
+                "its copy loop, logs of other jobs are untouched. The level is 'other' because the first half of the property (events lossless, ordered, "
                 'idempotent) is decided by bounded checking only; statistics (running max/min/sum, lemma over all sample sequences) and tallies (each result '
                 'in exactly one class) are proved.'}
